@@ -23,6 +23,7 @@ PlusOnly  == {"+"}
 ShapeOps  == {"+", "-", "*", "/", "**"}
 PairCmps  == {"<", ">=", "=="}
 LtOnly    == {"<"}
+VerbSet   == {"len( 'a  b' )", "2  *  3"}
 AndOr     == {"and", "or"}
 AllCmps   == {"<", "<=", ">", ">=", "==", "!="}
 FortIdxs  == {0, -1, 1}
